@@ -4,7 +4,7 @@
 (* real getters returned afterwards must equal the read views of the model.  *)
 EXTENDS RaftLog, TraceBase
 
-tvars == <<log, snap, l, sid, used>>
+tvars == <<log, snap, l, sid, used, failed>>
 
 Pairs(lg) == {<<lg[k].i, lg[k].t>> : k \in DOMAIN lg}
 ToSet(s) == {s[k] : k \in DOMAIN s}
@@ -22,10 +22,11 @@ ObsOK ==
 TInit == RInit /\ TBInit
 
 T_Reset == ResetBook /\ log' = <<>> /\ snap' = NoSnap
+T_Fail == FailBook /\ log' = <<>> /\ snap' = NoSnap
 T_Append == IsEv("Append") /\ AppendEntries(Ev.first, Ev.terms) /\ ObsOK /\ Same
 T_Delete == IsEv("DeleteFrom") /\ DeleteFrom(Ev.i) /\ ObsOK /\ Same
 T_Snapshot == IsEv("Snapshot") /\ Snapshot(Ev.i, Ev.t) /\ ObsOK /\ Same
 
-TNext == T_Reset \/ T_Append \/ T_Delete \/ T_Snapshot
+TNext == T_Fail \/ T_Reset \/ T_Append \/ T_Delete \/ T_Snapshot
 TSpec == TInit /\ [][TNext]_tvars
 =============================================================================
